@@ -155,5 +155,14 @@ def run(prog: Program) -> Results:
     merge.check(prog, res, "R-C05-5", "R-C05-6")
     from sa.rules import cursor
     cursor.check(prog, res, "R-C05-8", ("cli/manipulations.py",), 4)
+    from sa.rules import c09 as _shared_c09
+    _sub = _shared_c09.run(prog)
+    _st = _sub.rules.get("R-C09-3")
+    _r = res.rule("R-C05-9", "a let layer is pruned only when nothing is left in it: removing the last plain binding keeps a layer that still holds inherit entries (shared with R-C09-3)", floor=2)
+    if _st:
+        _r.instances, _r.obligations, _r.discharged = _st.instances, _st.obligations, _st.discharged
+    for _f in _sub.findings:
+        if _f.rule == "R-C09-3":
+            res.add("R-C05-9", _f.key, _f.where, _f.message)
     res.assumptions = ["the value read back equals VALUE, intermediate-set creation and pruning are runtime effects not decided here"]
     return res
